@@ -301,7 +301,7 @@ func (b *bmcSys) unrollAndSolve() {
 	}
 	nT := len(b.trans)
 	tick := -1
-	if b.clock > 0 {
+	if b.clock == 2 {
 		tick = nT
 		nT++
 	}
@@ -385,6 +385,16 @@ func (b *bmcSys) unrollAndSolve() {
 			}
 		}
 		u.stepInputs = append(u.stepInputs, ins)
+		var laxDelta *term.T
+		if b.clock == 1 {
+			// lax clock: an arbitrary amount of time may pass before the transition of
+			// this step fires (only transitions that read the clock can tell, so the
+			// delay is forced to zero for the others - this keeps them independent)
+			laxDelta = f.Var(fmt.Sprintf("tick.delta@%d", k), term.BV(clockW))
+			assert(f.ULe(laxDelta, f.BVC(clockW, 4096)))
+			mp[b.now] = f.Add(u.cur[b.now], laxDelta)
+			u.stepInputs[k] = append(u.stepInputs[k], laxDelta)
+		}
 		memo := map[int]*term.T{}
 		sub := func(t *term.T) *term.T { return f.Subst(t, mp, memo) }
 		next := map[*term.T]*term.T{}
@@ -411,6 +421,9 @@ func (b *bmcSys) unrollAndSolve() {
 				continue
 			}
 			assert(f.Implies(is, g))
+			if laxDelta != nil && !t.clock {
+				assert(f.Implies(is, f.Eq(laxDelta, f.BVC(clockW, 0))))
+			}
 			for v, nv := range t.upd {
 				writes[v] = append(writes[v], wr{t.id, sub(nv)})
 			}
@@ -456,6 +469,14 @@ func (b *bmcSys) unrollAndSolve() {
 			}
 			writes[b.now] = append(writes[b.now], wr{tick, f.Add(u.cur[b.now], d)})
 			u.stepInputs[k] = append(u.stepInputs[k], d)
+		}
+		if laxDelta != nil {
+			// the clock keeps the advanced value (stutter: no advance)
+			adv := f.Ite(f.Eq(sch, f.IntC(int64(u.stutter))), u.cur[b.now], f.Add(u.cur[b.now], laxDelta))
+			if len(writes[b.now]) > 0 {
+				unsupported("a transition writes the clock")
+			}
+			next[b.now] = adv
 		}
 		for v, ws := range writes {
 			val := u.cur[v]
